@@ -118,4 +118,44 @@ theorem wantSeq_is_roundtrip (hdr : Bool) (id : Bytes) (mol : Nat) (letters : By
   simp only [String.append_assoc]
   rfl
 
+/-! ### files of several records (ops `bedf`, `gfff`; fourth wave)
+The harness keeps every record the reader returned and renders them after `io.EOF`; the demand is
+the per-record demand mapped over the records.  (That the reader model returns exactly these calls
+on the concatenated text is run by the driver on every case — `Bed.readAll` / `Gff.readAll` on the
+whole text — and proved for one record: `wantBed_is_model`, `wantGff_is_roundtrip`; the induction
+over the records is not done.) -/
+
+theorem intercalate_three (a b c : String) : " ".intercalate [a, b, c] = a ++ " " ++ b ++ " " ++ c := rfl
+
+/-- for a file of one record the demand is the single-record demand `wantBed` -/
+theorem wantBedFile_single (r : Nat) (b : Bed.Rec) : wantBedFile r [b] = wantBed r b := by
+  unfold wantBedFile wantBed
+  simp only [List.map_cons, List.map_nil, List.cons_append, List.nil_append, intercalate_two, String.append_assoc]
+  rfl
+
+/-- for a file of one feature the demand is the single-feature demand `wantGff` -/
+theorem wantGffFile_single (hdr : Bool) (f : Gff.Feature) : wantGffFile hdr [f] = wantGff hdr f := by
+  unfold wantGffFile wantGff
+  simp only [List.map_cons, List.map_nil, List.cons_append, List.nil_append, intercalate_three, String.append_assoc]
+  rfl
+
+/-- **files of several BED records** (op `bedf`): the demanded history is the rendering of "every
+    record, as its first `r` columns (`bed_narrow_read` per record), in order, then `io.EOF`" -/
+theorem wantBedFile_is_records_then_eof (r : Nat) (bs : List Bed.Rec) :
+    wantBedFile r bs = bedCalls (bs.map (fun b => Bed.Call.record (Bed.firstCols r b)) ++ [.eof]) := by
+  unfold wantBedFile bedCalls
+  congr 1
+  simp only [List.map_append, List.map_map, List.map_cons, List.map_nil]
+  rfl
+
+/-- **files of several GFF features** (op `gfff`): every feature in order, then `io.EOF`, then the
+    reader's metadata -/
+theorem wantGffFile_is_features_then_eof (hdr : Bool) (fs : List Gff.Feature) :
+    wantGffFile hdr fs =
+      " ".intercalate ((fs.map (fun f => Gff.Call.item (.feature f)) ++ [Gff.Call.eof]).map gffCall ++ [metaStr hdr]) := by
+  unfold wantGffFile
+  congr 1
+  simp only [List.map_append, List.map_map, List.map_cons, List.map_nil, List.append_assoc, List.cons_append, List.nil_append]
+  rfl
+
 end Biogo.Properties.C02_checker
